@@ -43,7 +43,7 @@ theorem inv_step (comp : Comp) (s : St) (op : Op) (h : Inv comp s) : Inv comp (s
     · exact h
     · split
       · exact h
-      · obtain ⟨h1, h2, h3, h4⟩ := parseTemplate_keeps comp { s with srcs := put s.srcs uri text } uri text
+      · obtain ⟨h1, h2, h3, h4⟩ := parseTemplate_keeps comp { s with srcs := put s.srcs uri (lastSeg30 text) } uri (lastSeg30 text)
         intro u t hu
         simp only [] at hu ⊢
         rw [h1] at hu
@@ -103,11 +103,12 @@ theorem open_sends_compilation (comp : Comp) (s : St) (u t : GoStr) (v : Int) (h
   simp only [step, hu, Bool.not_true, Bool.false_eq_true, if_false]
   simp [h4]
 
-/-- **didChange** of an open template sends exactly the compiler's code for the new content. -/
+/-- **didChange** of an open template sends exactly the compiler's code for the new content (the last
+of the full-text content changes the notification carries). -/
 theorem change_sends_compilation (comp : Comp) (s : St) (u t old : GoStr) (v : Int) (hu : isGohtURI u = true)
     (ho : get s.srcs u = some old) :
-    Ev.dChange (goURI u) v (comp t).text ∈ (step comp s (.change u t v)).2 := by
-  obtain ⟨_, _, _, h4⟩ := parseTemplate_keeps comp { s with srcs := put s.srcs u t } u t
+    Ev.dChange (goURI u) v (comp (lastSeg30 t)).text ∈ (step comp s (.change u t v)).2 := by
+  obtain ⟨_, _, _, h4⟩ := parseTemplate_keeps comp { s with srcs := put s.srcs u (lastSeg30 t) } u (lastSeg30 t)
   simp only [step, hu, Bool.not_true, Bool.false_eq_true, if_false, ho]
   simp [h4]
 
